@@ -31,12 +31,12 @@ def on_error_resume_next_(
         even if a sequence terminates exceptionally.
     """
 
-    sources_ = iter(sources)
-
     def subscribe(
         observer: abc.ObserverBase[_T], scheduler: abc.SchedulerBase | None = None
     ) -> abc.DisposableBase:
         scheduler = scheduler or CurrentThreadScheduler.singleton()
+
+        sources_ = iter(sources)
 
         subscription = SerialDisposable()
         cancelable = SerialDisposable()
